@@ -99,6 +99,7 @@ type Contract struct {
 type AtCall struct {
 	Match  string
 	Clause *Clause
+	Reach  bool // `at-call <text> reachable <expr>`: some execution reaches the call with <expr> true (must be SAT)
 }
 
 type SpecFn struct {
@@ -326,6 +327,14 @@ func (ss *SpecSet) parseSpec(text, path, pkgPath string) error {
 			}
 			cur.AtReturn = append(cur.AtReturn, &Clause{Text: body, Expr: e, Line: ln + 1, Note: note})
 		case "at-call":
+			if j := strings.Index(rest, " reachable "); cur != nil && j >= 0 && !strings.Contains(rest, " requires ") {
+				e, err := parseExpr(strings.TrimSpace(rest[j+11:]))
+				if err != nil {
+					return fail(err)
+				}
+				cur.AtCall = append(cur.AtCall, &AtCall{Match: strings.TrimSpace(rest[:j]), Reach: true, Clause: &Clause{Text: strings.TrimSpace(rest[j+11:]), Expr: e, Line: ln + 1, Note: note}})
+				break
+			}
 			i := strings.Index(rest, " requires ")
 			if cur == nil || i < 0 {
 				return fail(fmt.Errorf("at-call <text> requires <expr>"))
